@@ -153,6 +153,8 @@ def check(ctx, run):
         try:
             log_, _ = registry_fold(prog, [("G", 1), ("G", 1), ("G", 1)], during=during)
             got = [e_[2] for e_ in log_ if e_[0] == "runOneTest"]
+            if [e_[1] for e_ in log_ if e_[0] == "runOneTest"] != [0, 1, 2]:
+                raise Unknown("the folded run does not run the three selected tests once each in order (that is C02's subject): %s" % [e_[:2] for e_ in log_ if e_[0] == "runOneTest"])
         except Unknown as u:
             raise AnalysisBroken("C17.R3: the registry run cannot be folded with the plugin chain changing under it: %s" % u)
         run.ob("R3", "runAllTests folded, %s: every test is handed the chain head the registry has when that test starts" % desc, rt_.site, got == want, witness={"handed": got, "chain heads": want},
@@ -188,10 +190,9 @@ def check(ctx, run):
     except Unknown as u:
         got = "unknown: %s" % u
     run.ob("R3", "addPlugin links the given chain behind this plugin and returns this", ap.site, got == (8000, 5000), witness={"(returns, successor)": got})
-    for fn_, post in (("UtestShell::runOneTestInCurrentProcess", None),):
-        f = prog.fn(fn_)
-        cs = [render(f, c) for c in f.calls() if render(f, c).startswith("plugin->runAll")]
-        run.ob("R3", "the runner passes this test and its result to both chain walkers", f.site, cs == ["plugin->runAllPreTestAction(*this, result)", "plugin->runAllPostTestAction(*this, result)"], witness=cs)
+    # the runner passes this test and its result to both chain walkers, on the chain it was given: the runner folded
+    from .C01 import bracketing_rule
+    bracketing_rule(prog, run, "R3")
 
     # ---------------- R5 ----------------------------------------------------
     CH = {"A": 5000, "B": 6000, "C": 7000, "NullPlugin": 9000}
